@@ -31,7 +31,7 @@ var c18ValidNames = []string{"A", "B", "a-b_1", "0", "REQ", "Z9"}
 var c18InvalidNames = []string{"", "A B", "A.B", "{A}", "É", "A\n", "A}", "a/b", " A", "pkg[0]", "a^b", "a]b", "back\\slash", "tick`", "a@b", "a:b", "a+b", "a~b", "A\x00", "a=b", "a,b", "a;b", "a|b", "a!", "(a)", "a%b", "a#", "a&b", "a'b", "a\"b", "a<b>", "a?b", "a*"}
 
 func c18Text() *rapid.Generator[string] {
-	atoms := []string{"{A}", "{B}", "{a-b_1}", "{0}", "{UNKNOWN}", "{", "}", "{{A}}", "{A}{B}", "{A", "A}", "{}", "{ A}", "{A }", "x", " ", "/", "*", "{É}", "{A.B}", "é", "{REQ}", "{Z9}", "{{", "}}", "{a}", "{A}}"}
+	atoms := []string{"{A}", "{B}", "{a-b_1}", "{0}", "{UNKNOWN}", "{", "}", "{{A}}", "{A}{B}", "{A", "A}", "{}", "{ A}", "{A }", "x", " ", "/", "*", "{É}", "{A.B}", "é", "{REQ}", "{Z9}", "{{", "}}", "{a}", "{A}}", "\x00", "\n", "\t", "\x1f", "a\x00b", "\x00{A}\x00", "\u2028"}
 	return rapid.Custom(func(t *rapid.T) string {
 		return strings.Join(rapid.SliceOfN(rapid.SampledFrom(atoms), 0, 5).Draw(t, "text"), "")
 	})
@@ -60,7 +60,7 @@ func c18GenParams(t *rapid.T) map[string]string {
 		default:
 			name = rapid.SampledFrom(c18ValidNames).Draw(t, "name")
 		}
-		out[name] = rapid.SampledFrom([]string{"v", "", "{B}", "{A}", "a.txt", "{", "}", "x{A}y", "é{0}", "*"}).Draw(t, "value")
+		out[name] = rapid.SampledFrom([]string{"v", "", "{B}", "{A}", "a.txt", "{", "}", "x{A}y", "é{0}", "*", "\x00", "a\x00b", "two\nlines", "\x1f", " "}).Draw(t, "value")
 	}
 	return out
 }
